@@ -486,7 +486,7 @@ impl<'a> SeqModel<'a> {
                     self.since_snap.clear();
                 }
             }
-            OpKind::Sleep { .. } | OpKind::ListDir { .. } | OpKind::RemoveFile { .. } => {}
+            OpKind::Sleep { .. } | OpKind::ListDir { .. } | OpKind::RemoveFile { .. } | OpKind::Mutate { .. } => {}
         }
     }
 
